@@ -172,3 +172,77 @@ def check(case):
     nt = len(distinct) >= 3 and gapped
     return engine.ok(nt, cl, {"n": len(seqs), "distinct": len(distinct), "dup": [d[:40] for d in list(dups)[:2]],
                               "cfg": cfg, "entry": case["entry"]})
+
+
+# ------------------------------------------------------------------ class-confusion inputs (adaptive, enumerated)
+
+PUBLISHED = ["LM", "IV", "KR", "EQZ", "AST", "NDB", "FY", "C", "G", "H", "P", "W"]
+
+
+def confusion_pairs():
+    """letters that kalign's guide-tree alphabets put into one class although the published tables separate them
+    (or that are unmapped there): read from the real tables through the probe"""
+    from vlib import runner
+    pr = runner.run_probe(["alphabet 13", "alphabet 5"])
+    if pr.ended.bad or not pr.steps or len(pr.steps) != 2 or pr.steps[0].get("rc") != 0 or pr.steps[1].get("rc") != 0:
+        return None
+    out = []
+    red = pr.steps[0]["to_internal"]
+    pub = {}
+    for g in PUBLISHED:
+        for ch in g:
+            pub[ch] = g[0]
+    letters = "ABCDEFGHIJKLMNOPQRSTUVWXYZ"
+    for i, p in enumerate(letters):
+        for q in letters[i + 1:]:
+            cp, cq = red[ord(p)], red[ord(q)]
+            if cp >= 0 and cp == cq and pub.get(p, "X" if p == "X" else "?" + p) != pub.get(q, "X" if q == "X" else "?" + q):
+                out.append(("protein", p, q))
+    dna = pr.steps[1]["to_internal"]
+    dpub = {"A": "A", "C": "C", "G": "G", "T": "T", "U": "T"}
+    for i, p in enumerate(letters):
+        for q in letters[i + 1:]:
+            cp, cq = dna[ord(p)], dna[ord(q)]
+            if cp >= 0 and cp == cq and dpub.get(p, "N") != dpub.get(q, "N"):
+                out.append(("dna", p, q))
+    return out
+
+
+def confusion_input(kind, p, q):
+    """a duplicated sequence rich in p, and two short fragments spelled with q that are contained in it only if p and q
+    count as equal (template after seeded change C12-d)"""
+    if kind == "protein":
+        w = "WHKGMPE"
+        st1 = p + "W" + p + "H" + p + "KP" + p + "G" + p + "M" + p
+        st2 = p + "W" + p + "H" + p + "PE" + p + "G" + p + "M" + p
+        st3 = q + "W" + q + "H" + q + "P" + q + "G" + q + "M" + q
+        x = "MKTAYIAKQR" + st1 + "GSLNDIFEAQ" + st2 + "VTHLRDNGYS" + st3 + "QIEVNAFKDL"
+        z1 = st1.replace(p, q)
+        z2 = st2.replace(p, q)
+    else:
+        st1 = p + "A" + p + "C" + p + "GT" + p + "A" + p + "G" + p
+        st2 = p + "A" + p + "C" + p + "TG" + p + "A" + p + "G" + p
+        st3 = q + "A" + q + "C" + q + "T" + q + "A" + q + "G" + q
+        x = "ACGTTGCAAC" + st1 + "GGATCCTTAG" + st2 + "CTAGGATCCA" + st3 + "TTGACCAGTA"
+        z1 = st1.replace(p, q)
+        z2 = st2.replace(p, q)
+    return [x, z1, x, z2]
+
+
+def extra(tier, seed, stats):
+    out = []
+    pairs = confusion_pairs()
+    if pairs is None:
+        return [{"case": {"seqs": ["A", "A"], "cfg": {"type": 5, "threads": 1, "gpo": -1.0, "gpe": -1.0, "tgpe": -1.0}, "entry": "arr", "shape": "alphabet"},
+                 "detail": {"what": "could not read the alphabet tables through the probe"}, "kind": "harness"}]
+    stats.extra["class_confusions_found_in_the_tables"] = ["%s:%s=%s" % x for x in pairs]
+    for kind, p, q in pairs:
+        for a, b in ((p, q), (q, p)):
+            for t in (gen.PROT_TYPES if kind == "protein" else gen.DNA_TYPES):
+                case = {"seqs": confusion_input(kind, a, b), "cfg": {"type": t, "threads": 1, "gpo": -1.0, "gpe": -1.0, "tgpe": -1.0},
+                        "entry": "file", "shape": "class_confusion"}
+                r = check(case)
+                stats.record(case, r)
+                if r["status"] == "violation":
+                    out.append({"case": case, "detail": r["detail"], "kind": r.get("kind")})
+    return out
